@@ -82,8 +82,11 @@ EXPR_PAIRS = [
     ('len([r for r in orders if r.date >= "2024-01-01"])', 'len([r for r in orders if r.date >= "2024-01-01"])'),
     ('[r.item for r in orders if "2024-06-01" <= r.date]', '[r.item for r in orders if "2024-06-01" <= r.date]'),
     ('any(r.date == "2024-03-05" for r in orders)', 'any(r.date == "2024-03-05" for r in receipts)'),
+    # a name is looked up afresh each time: a variable named like a supplemental source shadows it where it is defined, and only there
+    ('len(orders) > 0', 'len(orders) > 0'), ('len([r for r in orders]) == 0 or label == "x"', 'any(True for r in orders)'), ('len(receipts) + len(orders)', 'len(orders)'),
     ('not regex("SAMS(CLUB")', 'regex("SAMS(CLUB") or contains("e")'), ('extract("A(B") == ""', 'not regex("[a-")'), ('regex("SAMS(CLUB")', 'not regex("SAMS(CLUB")'),
 ]
+SHADOW = {'label': 'x', 'threshold': 9, 'orders': []}
 VARS_RULES = '''is_wire = field.type == "WIRE"
 has_ref = contains(field.memo, "REF")
 recent = date >= "2020-01-01"
@@ -312,7 +315,7 @@ class History(RuleBasedStateMachine):
                             f'history: {json.dumps(self.steps)[:1200]}', self.case(), 'history-dependence')
 
     @precondition(lambda self: self.files is not None)
-    @rule(p=st.integers(0, len(EXPR_PAIRS) - 1), which=st.integers(0, 1), t=st.integers(0, 5), v=st.sampled_from([{'label': 'x', 'threshold': 9}, {'label': 'UBER', 'threshold': 1}, None]))
+    @rule(p=st.integers(0, len(EXPR_PAIRS) - 1), which=st.integers(0, 1), t=st.integers(0, 5), v=st.sampled_from([{'label': 'x', 'threshold': 9}, {'label': 'UBER', 'threshold': 1}, None, SHADOW]))
     def eval_expr(self, p, which, t, v):
         self.steps.append(['eval', p, which, t, v])
         prior = [s for s in self.steps[:-1] if s[0] == 'eval' and s[1] == p]
@@ -323,11 +326,11 @@ class History(RuleBasedStateMachine):
         self.compare({'k': 'eval', 'src': EXPR_PAIRS[p][which], 'txn': self.txns[t % len(self.txns)], 'vars': v, 'rows': self.rows})
 
     @precondition(lambda self: self.files is not None)
-    @rule(p=st.integers(0, len(EXPR_PAIRS) - 1), first=st.integers(0, 1), t=st.integers(0, 5), v=st.sampled_from([{'label': 'x', 'threshold': 9}, None]))
-    def eval_pair(self, p, first, t, v):
-        """both members of a pair, back to back, for the same transaction"""
+    @rule(p=st.integers(0, len(EXPR_PAIRS) - 1), first=st.integers(0, 1), t=st.integers(0, 5), v=st.sampled_from([{'label': 'x', 'threshold': 9}, None]), v2=st.sampled_from([0, 0, 1]))
+    def eval_pair(self, p, first, t, v, v2):
+        """both members of a pair, back to back, for the same transaction (the second time possibly with a variable named like a supplemental source)"""
         self.eval_expr(p, first, t, v)
-        self.eval_expr(p, 1 - first, t, v)
+        self.eval_expr(p, 1 - first, t, SHADOW if v2 else v)
 
     @precondition(lambda self: self.files is not None)
     @rule(e=lang.bool_expr(2), t=st.integers(0, 5))
